@@ -709,6 +709,9 @@ func Templates(fs string, core, removeAll bool) []Tmpl {
 		one(fsx.Call{Op: "Rename", A: "/f/g", B: "/tmp/g"}),
 		one(fsx.Call{Op: "Mkdir", A: "/tmp/y", Perm: 0o755}),
 		one(fsx.Call{Op: "OpenFile", A: "/tmp/y", Flag: ex, Perm: 0o644}),
+		// an entry made in a directory, from another directory, while that directory is removed with
+		// its content (RemoveAll): the maker shares no lock with the remover but that of the directory itself
+		one(fsx.Call{Op: "Link", A: "/f/g", B: "/d/e/l"}),
 		// one file with names in two directories, linked once more in each of them by two threads:
 		// the two calls share no directory lock, only the lock of the file orders their counter updates
 		Tmpl{{Op: "Link", A: "/d/x", B: "/f/l"}, {Op: "Link", A: "/f/l", B: "/f/m"}},
